@@ -4,6 +4,7 @@ Decides: every non-static data member of every class that defines serializeOp is
 serializeOp (C11.ser) and compared by the class's operator== (C11.eq), unless the pair
 (class, member) is exempt in tables/c11_exempt.json with a reason.
 """
+import os
 import re
 
 from verif import core
@@ -202,6 +203,101 @@ def run_split(chk, fx, ser, closure, units):
             chk.info(r, "waiver %s in tables/c11_split_waived.json not needed on this tree" % k)
 
 
+def run_driver(chk):
+    """C11.phase: the generic Serializer's drivers reset the per-pass state before every pass over the data."""
+    r = chk.rule("C11.phase", "Serializer::pack/unpack (all overloads): every pass over the data - each call that receives the driver's argument - is preceded, since the previous pass, by an assignment of the operation, by a reset of the shared-pointer map (the first pass: unless every driver ends with one) and by a reset of the counter that pass advances (PACKSIZE: the size, PACK/UNPACK: the position); the PACK pass is preceded by the resize of the buffer to the computed size", floor=6)
+    probe = os.path.join(core.VERIF, "probes", "serializer_probe.cpp")
+    fx = chk.facts([probe], files_re="^/repo/opm/common/utility/Serializer\\.hpp$")
+    rec = fx.recs.get("Opm::Serializer")
+    if rec is None:
+        raise core.AnalysisBroken("class Opm::Serializer not found through probes/serializer_probe.cpp")
+    ftypes = {f["n"]: f.get("t") or "" for f in rec["fields"]}
+    ptrmap = [n for n, t in ftypes.items() if "shared_ptr<void>" in t]
+    opmem = [n for n, t in ftypes.items() if t.endswith("Operation")]
+    if len(ptrmap) != 1 or len(opmem) != 1:
+        raise core.AnalysisBroken("Serializer: pointer map / operation members not identified (%s, %s)" % (ptrmap, opmem))
+    ptrmap, opmem = ptrmap[0], opmem[0]
+    # the counters: the member that the PACKSIZE branch accumulates into, the member handed to the packer as position
+    calls = [f for f in fx.fns if f["q"] == "Opm::Serializer::operator()" and f.get("body")]
+    size_m, pos_m, buf_m = set(), set(), set()
+    for f in fx.fns:
+        if f.get("cls") != "Opm::Serializer" or not f.get("body"):
+            continue
+        for n in walk(f["body"]):
+            if n["k"] == "Bin" and n.get("op") == "+=" and strip(n["c"][0]).get("k") == "Mem" and any(meth(x)[0] == "packSize" for x in walk(n["c"][1])):
+                size_m.add(strip(n["c"][0])["n"])
+            m_, o_ = meth(n)
+            if m_ in ("pack", "unpack") and o_ is not None and strip(o_).get("k") == "Mem" and len(n.get("a") or []) >= 3:
+                a_ = [strip(x) for x in n["a"]]
+                if a_[-1].get("k") == "Mem" and a_[-2].get("k") == "Mem":
+                    pos_m.add(a_[-1]["n"])
+                    buf_m.add(a_[-2]["n"])
+    if len(size_m) != 1 or len(pos_m) != 1 or len(buf_m) != 1:
+        raise core.AnalysisBroken("Serializer: size / position / buffer members not identified (%s, %s, %s)" % (size_m, pos_m, buf_m))
+    size_m, pos_m, buf_m = size_m.pop(), pos_m.pop(), buf_m.pop()
+    drivers = [f for f in fx.fns if f.get("cls") == "Opm::Serializer" and f["n"] in ("pack", "unpack") and f.get("body") and f.get("params")]
+    if len(drivers) < 4:
+        raise core.AnalysisBroken("Serializer: expected the four pack/unpack drivers, found %d" % len(drivers))
+
+    def memname(e):
+        e = strip(e)
+        return e["n"] if e.get("k") == "Mem" and strip(e.get("b") or {"k": "This"}).get("k") == "This" else None
+
+    def classify(s_, pnames):
+        m_, o_ = meth(s_)
+        if m_ == "clear" and o_ is not None and memname(o_) == ptrmap:
+            return ("clear",)
+        if m_ == "resize" and o_ is not None and memname(o_) == buf_m:
+            return ("resize", memname(s_["a"][0]) if s_.get("a") else None)
+        if s_["k"] == "Bin" and s_.get("op") == "=" and memname(s_["c"][0]):
+            lhs = memname(s_["c"][0])
+            rhs = strip(s_["c"][1])
+            if lhs == opmem:
+                return ("op", rhs.get("n"))
+            if rhs.get("k") == "Int" and rhs.get("v") == 0:
+                return ("zero", lhs)
+        if s_["k"] in ("Call", "MCall", "OpCall") and any(x.get("k") == "Ref" and x.get("d") == "Parm" and x.get("n") in pnames for a_ in (s_.get("a") or []) for x in walk(a_)):
+            return ("pass",)
+        return ("other", show(s_)[:60])
+    seqs = {}
+    for f in drivers:
+        pn = {p_["n"] for p_ in f["params"]}
+        st = stmt_list(f["body"])
+        if any(s_["k"] in ("If", "For", "While", "ForRange", "Do", "Switch", "Try") for s_ in st):
+            raise core.AnalysisBroken("Serializer::%s %s: the driver is no longer a straight-line sequence" % (f["n"], f["sig"]))
+        seqs[(f["n"], f["sig"])] = (f, [classify(s_, pn) for s_ in st])
+    all_end_clear = all(("clear",) in seq[max([i for i, t in enumerate(seq) if t == ("pass",)] or [0]):] for f, seq in seqs.values())
+    for (n_, sig), (f, seq) in sorted(seqs.items()):
+        passes = [i for i, t in enumerate(seq) if t == ("pass",)]
+        if not passes:
+            raise core.AnalysisBroken("Serializer::%s %s: no pass over the data recognised" % (n_, sig))
+        prev = -1
+        cur_op = None
+        for pi, i in enumerate(passes):
+            seg = seq[prev + 1:i]
+            ops = [t[1] for t in seg if t[0] == "op"]
+            cur_op = ops[-1] if ops else None
+            key = "%s%s:pass%d" % (n_, sig, pi + 1)
+            need_counter = size_m if cur_op == "PACKSIZE" else pos_m
+            has_clear = ("clear",) in seg
+            has_zero = ("zero", need_counter) in seg
+            has_resize = ("resize", size_m) in seg
+            chk.instance(r, key, sample=dict(driver="%s %s" % (n_, sig), operation=cur_op, clear=has_clear, counter_reset=has_zero, resize=has_resize if cur_op == "PACK" else None))
+            where = (f["file"], stmt_list(f["body"])[i]["l"])
+            if cur_op is None:
+                chk.violation(r, key + ":op", "Serializer::%s %s: pass %d over the data runs without the operation being set since the previous pass" % (n_, sig, pi + 1), *where)
+                prev = i
+                continue
+            if not has_clear and not (pi == 0 and all_end_clear):
+                chk.violation(r, key + ":ptrmap", "Serializer::%s %s: the shared-pointer map is not cleared between the previous pass and the %s pass: every pointee recorded by the previous pass counts as already written, so the %s pass emits only its key and the buffer is left partly unfilled" % (n_, sig, cur_op, cur_op), *where)
+            if not has_zero:
+                chk.violation(r, key + ":counter", "Serializer::%s %s: %s is not reset to 0 before the %s pass" % (n_, sig, need_counter, cur_op), *where)
+            if cur_op == "PACK" and not has_resize:
+                chk.violation(r, key + ":resize", "Serializer::%s %s: the buffer is not resized to %s before the PACK pass" % (n_, sig, size_m), *where)
+            prev = i
+    chk.assumptions += ["Serializer.hpp is parsed through probes/serializer_probe.cpp (no library unit includes it); its member templates are analysed uninstantiated"]
+
+
 def run(chk):
     units = core.library_units()
     fx = chk.facts(units, files_re="^/repo/opm/", fn_re=r"::(serializeOp|operator==)$", rest_light=True)
@@ -396,6 +492,7 @@ def run(chk):
                 chk.fail_broken("stale exemption in tables/c11_exempt.json: %s::%s no longer exists" % k)
             else:
                 chk.info("C11.exempt", "exemption %s::%s not needed on this tree" % k)
+    run_driver(chk)
     chk.assumptions += [
         "clang 14 AST of the library units with the build's flags (HAVE_QUAD instantiations excluded)",
         "tables/c11_exempt.json: members that are process-local, derived, or documented as distributed separately",
